@@ -1,3 +1,170 @@
 import UscxmlVerif.Model.Validate
+/-!
+# C19 — what a document without fatal issues is guaranteed to satisfy
+
+`Model.Validate.fatalIssues` mirrors the fatal checks of `InterpreterIssue::forInterpreter`; the
+suite `classes` compares it with the compiled validator. Soundness, first part ("never
+dereferences a missing state"): if no fatal issue is reported then every id a transition or an
+`initial` attribute mentions is the id of an element of the document - so the `getState` calls
+of the interpreter and of the transpilers find a node.
+-/
 namespace UscxmlVerif.Properties.C19
+open UscxmlVerif UscxmlVerif.Model.Validate
+
+/-- every remembered id belongs to an element of the document -/
+def SeenOk (ns : Nodes) (seen : List (String × Nat)) : Prop :=
+  ∀ id i, (id, i) ∈ seen → id ≠ "" ∧ ∃ n, nodeAt ns i = some n ∧ n.id = id
+
+theorem foldl_seen {α} (l : List α) (f : Acc → α → Acc) (h : ∀ a g, (f a g).seen = a.seen) (a : Acc) :
+    (l.foldl f a).seen = a.seen := by
+  induction l generalizing a with
+  | nil => rfl
+  | cons x xs ih => simp only [List.foldl_cons]; rw [ih, h]
+
+theorem ite_seen (c : Prop) [Decidable c] (a : Acc) (is : List String) :
+    (if c then { a with issues := is } else a).seen = a.seen := by
+  split <;> rfl
+
+theorem histIssues_seen (ns : Nodes) (i : Nat) (d : Doc) (a : Acc) : (histIssues ns i d a).seen = a.seen := by
+  unfold histIssues
+  split
+  · split
+    · rfl
+    · split
+      · rfl
+      · simp only
+        split
+        · split <;> split <;> rfl
+        · rw [foldl_seen]
+          · split <;> split <;> rfl
+          · intro a g; exact ite_seen _ _ _
+  · rfl
+
+theorem stateStep_seen (ns : Nodes) (a : Acc) (i : Nat) (h : SeenOk ns a.seen) : SeenOk ns (stateStep ns a i).seen := by
+  unfold stateStep
+  cases hn : nodeAt ns i with
+  | none => exact h
+  | some d =>
+    simp only
+    split
+    · exact h
+    · split
+      · exact h
+      · rename_i _ hid
+        split
+        · simp only [histIssues_seen]; exact h
+        · simp only [histIssues_seen]
+          intro id j hm
+          rcases List.mem_append.mp hm with hm | hm
+          · exact h id j hm
+          · simp only [List.mem_singleton, Prod.mk.injEq] at hm
+            obtain ⟨h1, h2⟩ := hm
+            subst h1; subst h2
+            exact ⟨by simpa using hid, d, hn, rfl⟩
+
+theorem statePass_seen (ns : Nodes) : SeenOk ns (statePass ns).seen := by
+  unfold statePass
+  suffices h : ∀ (l : List Nat) (a : Acc), SeenOk ns a.seen → SeenOk ns (l.foldl (stateStep ns) a).seen from
+    h _ {} (by intro id i hm; cases hm)
+  intro l
+  induction l with
+  | nil => intro a h; exact h
+  | cons x xs ih => intro a h; exact ih _ (stateStep_seen ns a x h)
+
+theorem mem_of_lookup {seen : List (String × Nat)} {id : String} {g : Nat} (h : seenLookup seen id = some g) :
+    (id, g) ∈ seen := by
+  unfold seenLookup at h
+  induction seen with
+  | nil => cases h
+  | cons x xs ih =>
+    obtain ⟨k, v⟩ := x
+    simp only [List.lookup_cons] at h
+    split at h
+    · rename_i hk
+      simp only [Option.some.injEq] at h
+      have : id = k := by simpa using hk
+      subst this; subst h
+      exact List.mem_cons_self
+    · exact List.mem_cons_of_mem _ (ih h)
+
+/-- an id the validator has seen names an element of the document: the interpreter's `getState` finds it -/
+theorem seen_names_element (ns : Nodes) (id : String) (g : Nat) (h : seenLookup (statePass ns).seen id = some g) :
+    id ≠ "" ∧ ∃ n, nodeAt ns g = some n ∧ n.id = id :=
+  statePass_seen ns id g (mem_of_lookup h)
+
+theorem flatMap_nil {α β} {l : List α} {f : α → List β} (h : l.flatMap f = []) : ∀ x ∈ l, f x = [] := by
+  intro x hx
+  have := List.flatMap_eq_nil_iff.mp h
+  exact this x hx
+
+theorem append_nil_parts {α} {a b : List α} (h : a ++ b = []) : a = [] ∧ b = [] := List.append_eq_nil_iff.mp h
+
+/-- **no dangling transition target**: in a document without fatal issues every id in a transition's `target` names an
+element of the document (and no target attribute is empty) -/
+theorem targets_resolve (d : Doc) (h : fatalIssues d = []) :
+    ∀ i n, nodeAt (d.preorder none 0) i = some n → ∀ t ∈ n.trans, ∀ ids, t.targets = some ids →
+      ids ≠ [] ∧ ∀ id ∈ ids, id ≠ "" ∧ ∃ g m, nodeAt (d.preorder none 0) g = some m ∧ m.id = id := by
+  intro i n hn t ht ids hids
+  unfold fatalIssues at h
+  simp only at h
+  -- isolate the second pass
+  have h2 := (append_nil_parts (append_nil_parts (append_nil_parts (append_nil_parts (append_nil_parts (append_nil_parts h).1).1).1).1).1).2
+  have hi : i < (d.preorder none 0).length := by
+    unfold nodeAt at hn
+    cases hg : (d.preorder none 0)[i]? with
+    | none => rw [hg] at hn; cases hn
+    | some x => exact (List.getElem?_eq_some_iff.mp hg).1
+  have h3 := flatMap_nil h2 i (List.mem_range.mpr hi)
+  rw [hn] at h3
+  simp only at h3
+  have h4 := flatMap_nil h3 t ht
+  rw [hids] at h4
+  simp only at h4
+  obtain ⟨he, hf⟩ := append_nil_parts h4
+  constructor
+  · intro hnil
+    rw [hnil] at he
+    simp at he
+  · intro id hid
+    have hf' := List.filterMap_eq_nil_iff.mp hf id hid
+    cases hl : seenLookup (statePass (d.preorder none 0)).seen id with
+    | none => rw [hl] at hf'; simp at hf'
+    | some g =>
+      obtain ⟨h1, m, hm, hmid⟩ := seen_names_element _ id g hl
+      exact ⟨h1, g, m, hm, hmid⟩
+
+/-- **initial attributes resolve to descendants**: in a document without fatal issues every id in the `initial` attribute of a
+state (or of the root) names a state-like descendant of that element -/
+theorem initial_resolves (d : Doc) (h : fatalIssues d = []) :
+    ∀ i ∈ allStates (d.preorder none 0) ++ [0], ∀ n, nodeAt (d.preorder none 0) i = some n → ∀ ids, n.initAttr = some ids →
+      ∀ id ∈ ids, ∃ g m, nodeAt (d.preorder none 0) g = some m ∧ m.id = id ∧ (stateDescendants (d.preorder none 0) i).contains g = true := by
+  intro i hi n hn ids hids id hid
+  unfold fatalIssues at h
+  simp only at h
+  have h3 := (append_nil_parts (append_nil_parts (append_nil_parts (append_nil_parts (append_nil_parts h).1).1).1).1).2
+  have h4 := flatMap_nil h3 i hi
+  rw [hn] at h4
+  simp only at h4
+  rw [hids] at h4
+  simp only at h4
+  have h5 := List.filterMap_eq_nil_iff.mp h4 id hid
+  cases hl : seenLookup (statePass (d.preorder none 0)).seen id with
+  | none => rw [hl] at h5; simp at h5
+  | some g =>
+    rw [hl] at h5
+    simp only at h5
+    obtain ⟨_, m, hm, hmid⟩ := seen_names_element _ id g hl
+    refine ⟨g, m, hm, hmid, ?_⟩
+    by_cases hc : (stateDescendants (d.preorder none 0) i).contains g = true
+    · exact hc
+    · rw [if_neg hc] at h5; cases h5
+
+/-- the premise is satisfiable and the conclusion not vacuous: scxml{ a -e-> b, b } -/
+def sampleDoc : Doc :=
+  .node .scxml "" none [] [] [] [
+    .node .state "a" none [] [] [{ event := some "e", cond := .none, targets := some ["b"], internal := false, content := [] }] [],
+    .node .state "b" none [] [] [] []]
+
+example : fatalIssues sampleDoc = [] := by decide
+
 end UscxmlVerif.Properties.C19
